@@ -1,8 +1,8 @@
 import PsiProofs.Helper.C06_Notes
 /-!
-Helper for C06 (composition): the joint invariant over whole histories, the extra invariant of
-histories without `pause(m)`, and two consequences of the C05 refinement theorem that the
-composition needs (a key never requested / an epoch the stream never reached deliver nothing).
+Helper for C06 (composition): the joint invariant over whole histories, and what the extractor
+has delivered under one dictionary key in terms of the notification stream (C05's per-request
+refinement `extract_refines_spec_seq` read through the ghost of the joint invariant).
 -/
 namespace Psi.E2E
 open Psi.Queue Psi.Extract
@@ -123,9 +123,6 @@ trial occupies at least its waveform on the grid, and the epoch covers the stimu
 def SideOK (c : Cfg) (added : List Info) : Prop :=
   ∀ i ∈ added, (i.len : Int) ≤ i.dur ∧ i.dur + (c.P : Int) ≤ (c.L : Int)
 
-/-- the dictionary keys `(t0, key)` of the notified trials are pairwise distinct -/
-def KeysOK (c : Cfg) (added : List Info) : Prop := ((added.map (reqOf c)).map (·.key)).Nodup
-
 def isPause : Ev → Bool
   | .q (.pause (some _)) => true
   | _ => false
@@ -133,11 +130,8 @@ def isPause : Ev → Bool
 theorem SideOK_prefix {c : Cfg} {a b : List Info} (h : SideOK c b) (hp : a <+: b) : SideOK c a :=
   fun i hi => h i (hp.subset hi)
 
-theorem KeysOK_prefix {c : Cfg} {a b : List Info} (h : KeysOK c b) (hp : a <+: b) : KeysOK c a :=
-  List.Nodup.sublist (((hp.sublist).map _).map _) h
-
-theorem JInv_step (c : Cfg) {J J' : JState} (ev : Ev) (inv : JInv c J) (h : jstep c J ev = .ok J')
-    (hside : isPause ev = true → SideOK c J.q.added) (hkeys : KeysOK c J.q.added) : JInv c J' := by
+theorem JInv_step (c : Cfg) (henc : EncInj c) {J J' : JState} (ev : Ev) (inv : JInv c J)
+    (h : jstep c J ev = .ok J') (hside : isPause ev = true → SideOK c J.q.added) : JInv c J' := by
   cases ev with
   | q op =>
     cases op with
@@ -147,7 +141,7 @@ theorem JInv_step (c : Cfg) {J J' : JState} (ev : Ev) (inv : JInv c J) (h : jste
       · cases h
       · rename_i out q' hp
         simp only [Except.ok.injEq] at h; subst h
-        exact (JInv_pop c inv hp).1
+        exact (JInv_pop c henc inv hp).1
     | pause m =>
       cases m with
       | none =>
@@ -166,7 +160,7 @@ theorem JInv_step (c : Cfg) {J J' : JState} (ev : Ev) (inv : JInv c J) (h : jste
           · cases h
           · rename_i hm hacq
             simp only [Except.ok.injEq] at h; subst h
-            exact (JInv_pause_some c m inv (by omega) (by omega) (hside rfl)).1
+            exact (JInv_pause_some c henc m inv (by omega) (by omega) (hside rfl)).1
     | resume m =>
       cases m with
       | none =>
@@ -209,10 +203,10 @@ theorem JInv_step (c : Cfg) {J J' : JState} (ev : Ev) (inv : JInv c J) (h : jste
           rw [List.all_eq_true] at hvis' hlate'
           exact JInv_acq c n vis _ inv rfl rfl rfl (by omega)
             (fun r hr => by simpa using hvis' r hr)
-            (fun r hr => by simpa [lateRemovalOk] using hlate' _ hr) hkeys
+            (fun r hr => by simpa [lateRemovalOk] using hlate' _ hr)
 
-theorem JInv_run (c : Cfg) (evs : List Ev) {J J' : JState} (inv : JInv c J) (h : jrun c evs J = .ok J')
-    (hside : (∃ ev ∈ evs, isPause ev = true) → SideOK c J'.q.added) (hkeys : KeysOK c J'.q.added) :
+theorem JInv_run (c : Cfg) (henc : EncInj c) (evs : List Ev) {J J' : JState} (inv : JInv c J)
+    (h : jrun c evs J = .ok J') (hside : (∃ ev ∈ evs, isPause ev = true) → SideOK c J'.q.added) :
     JInv c J' := by
   induction evs generalizing J with
   | nil => simp only [jrun, Except.ok.injEq] at h; subst h; exact inv
@@ -222,50 +216,21 @@ theorem JInv_run (c : Cfg) (evs : List Ev) {J J' : JState} (inv : JInv c J) (h :
     split at h
     · cases h
     · rename_i J1 hs
-      have inv1 : JInv c J1 := JInv_step c ev inv hs
-        (fun hpz => SideOK_prefix (hside ⟨ev, List.mem_cons_self, hpz⟩) hp) (KeysOK_prefix hkeys hp)
+      have inv1 : JInv c J1 := JInv_step c henc ev inv hs
+        (fun hpz => SideOK_prefix (hside ⟨ev, List.mem_cons_self, hpz⟩) hp)
       exact ih inv1 h (fun ⟨e, he, hz⟩ => hside ⟨e, List.mem_cons_of_mem _ he, hz⟩)
 
-/-! ### two consequences of the C05 refinement -/
+/-! ### what was delivered under one key -/
 
-theorem flatten_map_nil {α β} (l : List α) : (l.map (fun _ => ([] : List β))).flatten = [] := by
-  induction l with
-  | nil => rfl
-  | cons x xs _ => simp
-
-/-- a key that is never requested delivers nothing -/
-theorem never_requested_silent {α} (B L : Nat) (ops : List (Op α)) (k : Nat) (hv : Valid B L ops)
-    (hno : ∀ r ∈ allReqs ops, r.key ≠ k) : (deliveries B ops k).flatten = [] := by
-  have hS : ChunksOf (streamOf ops) 0 ops := by
-    have := chunksOf_streamOf ([] : List α) ops
-    simpa using this
-  obtain ⟨h1, _⟩ := run_idle (streamOf ops) B L k ops [] (State.init B) (inv_init _ B L) hv
-    (by simpa [total] using hS) (by simp [pendK, State.init])
-    (fun op hop q hq => hno q (List.mem_flatMap.2 ⟨op, hop, hq⟩))
-  simp only [deliveries, h1, flatten_map_nil]
-
-theorem spec_unreached {α} (S : List α) (r : Request) (ops : List (Op α)) (T : Nat)
-    (h : T + total ops < r.s.toNat + r.len) :
-    ((specDeliver r T ops).map (emit S r)).flatten = [] := by
-  induction ops generalizing T with
-  | nil => rfl
-  | cons o os ih =>
-    simp only [specDeliver]
-    by_cases hk : r.key ∈ o.rems
-    · simp only [hk, if_true, List.map_cons, List.flatten_cons]
-      simp [emit]
-    · have hle : ¬ r.s.toNat + r.len ≤ T + o.chunk.length := by simp [total] at h; omega
-      simp only [hk, hle, if_false, List.map_cons, List.flatten_cons]
-      rw [ih (T + o.chunk.length) (by simp [total] at h ⊢; omega)]
-      simp [emit]
-
-/-- a request whose last sample the stream has not reached has delivered nothing -/
-theorem unreached_never_delivered {α} (B L : Nat) (pre rest : List (Op α)) (op : Op α) (r : Request)
-    (hv : Valid B L (pre ++ op :: rest)) (hr : r ∈ op.reqs)
-    (hshort : total (pre ++ op :: rest) < r.s.toNat + r.len) :
-    (deliveries B (pre ++ op :: rest) r.key).flatten = [] := by
-  rw [extract_refines_spec B L pre rest op r hv hr, List.flatten_append, flatten_map_nil,
-    spec_unreached _ r (op :: rest) (total pre) (by rw [total_append] at hshort; exact hshort)]
-  rfl
+/-- **Accounting.**  Under any dictionary key, the extractor has delivered exactly the epoch of the
+outstanding trial of that key among the notifications it has seen — if the acquired stream has
+reached its last sample —, and nothing else: every earlier trial with the same key was cancelled
+and its removal seen in time. -/
+theorem deliveries_key (c : Cfg) {J : JState} (inv : JInv c J) {seen : List Note} (g : GInv c J seen)
+    (κ : Nat) : (deliveries c.B J.eops κ).flatten =
+      (((altEnd none (onKey c κ seen)).filter (fun i => doneAt (reqOf c i) J.acq)).map
+        (fun i => epochOf (streamOf J.eops) (reqOf c i))).toList := by
+  rw [extract_refines_spec_seq c.B c.L J.eops inv.n.valid κ, flatten_emit, g.acc κ]
+  cases (altEnd none (onKey c κ seen)).filter (fun i => doneAt (reqOf c i) J.acq) <;> rfl
 
 end Psi.E2E
